@@ -1,4 +1,586 @@
-//! groupenc: not built yet.
-pub fn run(args: &vh_common::Args) {
-    vh_common::unknown(args)
+//! GroupEnc (C35): real `EncryptionGroup` instances ("data encryption" scheme) with the crate's
+//! test_utils collaborators (`TestDgm`, `MessageOrderer`, `KeyRegistry`, `KeyManager`) against
+//! spec/GroupEnc.
+//!
+//! * `replay`: every behaviour TLC exported (create / add / remove / update by any member, causal
+//!   deliveries in any order) is executed on real group states.  Compared after every call: the
+//!   verdict, `is_welcomed`, `members()`, the ids in the member's `SecretBundle` (`knows`), that
+//!   `latest()` is one of the causally maximal secrets, the recipients of the direct messages and
+//!   the causal ancestors the real message names.  Whenever everything sent has been delivered
+//!   everywhere, every current member encrypts an application message with its latest secret (on a
+//!   clone) and every other member tries to decrypt it: current members must get the plaintext
+//!   (MembersAgree), a removed member must not if the secret was minted after its removal
+//!   (RemovedCutOff).
+//! * `record`: seeded random histories (4 members, up to 8 operations, several concurrent pairs)
+//!   on the real code, one event per spec action.
+use std::collections::{BTreeSet, HashMap};
+
+use p2panda_encryption::Rng as CryptoRng;
+use p2panda_encryption::data_scheme::{EncryptionGroup, GroupOutput, GroupSecretId};
+use p2panda_encryption::test_utils::data_scheme::dgm::TestDgm;
+use p2panda_encryption::test_utils::data_scheme::network::{TestGroupState, init_group_state};
+use p2panda_encryption::test_utils::data_scheme::ordering::TestMessage;
+use p2panda_encryption::test_utils::{MemberId, MessageId};
+use p2panda_encryption::traits::GroupMessage;
+use vh_common::{Args, Outcome, Rng, TraceWriter, Value, catch, json, read_ndjson, unknown};
+
+type Msg = TestMessage<TestDgm<MemberId, MessageId>>;
+
+pub fn run(args: &Args) {
+    match args.mode.as_str() {
+        "replay" => replay(args),
+        "record" => record(args),
+        _ => unknown(args),
+    }
+}
+
+#[derive(Clone, Debug)]
+struct MsgInfo {
+    by: usize,
+    op: String,
+    arg: i64,
+    /// global ids of all causal ancestors (closure of the real message's `previous`)
+    anc: BTreeSet<usize>,
+    /// recipients of the direct messages
+    rcp: BTreeSet<usize>,
+    mints: bool,
+}
+
+#[derive(Clone, Debug, PartialEq, Eq)]
+struct Abs {
+    w: bool,
+    v: BTreeSet<usize>,
+    k: BTreeSet<usize>,
+}
+
+impl Abs {
+    fn to_json(&self) -> Value {
+        json!({"w": self.w, "v": self.v.iter().collect::<Vec<_>>(), "k": self.k.iter().collect::<Vec<_>>()})
+    }
+}
+
+fn set_of(v: &Value) -> BTreeSet<usize> {
+    v.as_array().map(|a| a.iter().map(|x| x.as_u64().unwrap() as usize).collect()).unwrap_or_default()
+}
+
+struct Net {
+    rng: CryptoRng,
+    states: Vec<TestGroupState>,
+    msgs: Vec<Msg>,
+    info: Vec<MsgInfo>,
+    /// (sender, seq) of a control message -> global id (1-based)
+    ids: HashMap<(usize, usize), usize>,
+    /// group secret id -> id of the message that minted it
+    secrets: HashMap<GroupSecretId, usize>,
+    /// control messages each member has processed (as far as the harness can tell: delivered while
+    /// welcomed, or flushed at the welcome) -- only used by the recorder to mirror the spec guard
+    dlv: Vec<BTreeSet<usize>>,
+}
+
+fn seed_bytes(seed: u64, k: u64) -> [u8; 32] {
+    let mut rng = Rng::new(seed ^ k.wrapping_mul(0xC2B2_AE3D_27D4_EB4F));
+    let mut out = [0u8; 32];
+    for b in out.iter_mut() {
+        *b = rng.next_u64() as u8;
+    }
+    out
+}
+
+impl Net {
+    fn new(n: usize, seed: [u8; 32]) -> Net {
+        let rng = CryptoRng::from_seed(seed);
+        let states: Vec<TestGroupState> = match n {
+            3 => init_group_state([0, 1, 2], &rng).into(),
+            4 => init_group_state([0, 1, 2, 3], &rng).into(),
+            _ => panic!("3 or 4 members"),
+        };
+        Net { rng, states, msgs: Vec::new(), info: Vec::new(), ids: HashMap::new(), secrets: HashMap::new(), dlv: vec![BTreeSet::new(); n] }
+    }
+
+    fn abs(&self, m: usize) -> Abs {
+        let y = &self.states[m];
+        Abs {
+            w: y.is_welcomed,
+            v: EncryptionGroup::members(y).map(|s| s.into_iter().collect()).unwrap_or_default(),
+            k: y.secrets.ids().map(|id| self.secrets.get(id).copied().unwrap_or(0)).collect(),
+        }
+    }
+
+    fn latest(&self, m: usize) -> Option<usize> {
+        self.states[m].secrets.latest().map(|s| self.secrets.get(&s.id()).copied().unwrap_or(0))
+    }
+
+    /// Ancestors named by the real message (closure over `previous`), as global ids.
+    fn ancestors(&self, message: &Msg) -> BTreeSet<usize> {
+        let v = serde_json::to_value(message).unwrap_or(Value::Null);
+        let mut out = BTreeSet::new();
+        if let Some(prev) = v.get("previous").and_then(|p| p.as_array()) {
+            for p in prev {
+                let key = (p["sender"].as_u64().unwrap_or(99) as usize, p["seq"].as_u64().unwrap_or(0) as usize);
+                if let Some(id) = self.ids.get(&key) {
+                    out.insert(*id);
+                    out.extend(self.info[*id - 1].anc.iter().copied());
+                }
+            }
+        }
+        out
+    }
+
+    /// A local group operation of m. On success the control message gets the next global id.
+    fn op(&mut self, m: usize, op: &str, arg: i64, mem: &BTreeSet<usize>) -> Result<usize, String> {
+        let y = self.states[m].clone();
+        let before: BTreeSet<GroupSecretId> = y.secrets.ids().copied().collect();
+        let res = catch(|| match op {
+            "Create" => EncryptionGroup::create(y, mem.iter().copied().collect(), &self.rng),
+            "Update" => EncryptionGroup::update(y, &self.rng),
+            "Remove" => EncryptionGroup::remove(y, arg as usize, &self.rng),
+            "Add" => EncryptionGroup::add(y, arg as usize, &self.rng),
+            _ => panic!("unknown op"),
+        });
+        match res {
+            Ok(Ok((y, message))) => {
+                let id = self.msgs.len() + 1;
+                let minted: Vec<GroupSecretId> = y.secrets.ids().filter(|s| !before.contains(*s)).copied().collect();
+                for s in &minted {
+                    self.secrets.insert(*s, id);
+                }
+                let anc = self.ancestors(&message);
+                let rcp = message.direct_messages().iter().map(|dm| dm.recipient).collect();
+                let mid = message.id();
+                self.ids.insert((mid.sender, mid.seq), id);
+                self.info.push(MsgInfo { by: m, op: op.to_string(), arg, anc, rcp, mints: !minted.is_empty() });
+                self.msgs.push(message);
+                self.states[m] = y;
+                Ok(id)
+            }
+            Ok(Err(e)) => Err(e.to_string()),
+            Err(p) => Err(format!("panic: {p}")),
+        }
+    }
+
+    /// `EncryptionGroup::receive(state of m, control message id)`.
+    fn deliver(&mut self, m: usize, id: usize) -> Result<(), String> {
+        let y = self.states[m].clone();
+        let message = self.msgs[id - 1].clone();
+        match catch(|| EncryptionGroup::receive(y, &message)) {
+            Ok(Ok((y, _outputs))) => {
+                self.states[m] = y;
+                self.dlv[m].insert(id);
+                Ok(())
+            }
+            Ok(Err(e)) => Err(e.to_string()),
+            Err(p) => Err(format!("panic: {p}")),
+        }
+    }
+
+    fn before(&self, i: usize, j: usize) -> bool {
+        self.info[j - 1].anc.contains(&i)
+    }
+
+    /// Current members as the history defines them (spec: `Current`).
+    fn current(&self) -> BTreeSet<usize> {
+        let n = self.states.len();
+        (0..n)
+            .filter(|m| {
+                let joins: Vec<usize> = (1..=self.info.len())
+                    .filter(|k| {
+                        let i = &self.info[k - 1];
+                        (i.op == "Create" && self.create_members(*k).contains(m)) || (i.op == "Add" && i.arg == *m as i64)
+                    })
+                    .collect();
+                let removes: Vec<usize> =
+                    (1..=self.info.len()).filter(|k| self.info[k - 1].op == "Remove" && self.info[k - 1].arg == *m as i64).collect();
+                joins.iter().any(|j| removes.iter().all(|r| self.before(*r, *j)))
+            })
+            .collect()
+    }
+
+    fn create_members(&self, k: usize) -> BTreeSet<usize> {
+        // creator + recipients of the initial secret
+        let i = &self.info[k - 1];
+        let mut s = i.rcp.clone();
+        s.insert(i.by);
+        s
+    }
+
+    /// Round trips at quiescence, on clones. Returns the first property-level failure.
+    fn round_trips(&self, current: &BTreeSet<usize>, out: &mut Outcome) -> Option<(String, String)> {
+        let n = self.states.len();
+        for &m1 in current {
+            let plaintext = format!("data of member {m1} after {} operations", self.msgs.len()).into_bytes();
+            let y1 = self.states[m1].clone();
+            let app = match catch(|| EncryptionGroup::send(y1, &plaintext, &self.rng)) {
+                Ok(Ok((_, app))) => app,
+                Ok(Err(e)) => {
+                    return Some(("current-member-cannot-send".into(), format!("current member {m1} cannot encrypt: {e}")));
+                }
+                Err(p) => return Some(("send-panics".into(), format!("member {m1}: {p}"))),
+            };
+            let used = self.latest(m1).unwrap_or(0);
+            for m2 in 0..n {
+                if m2 == m1 {
+                    continue;
+                }
+                let y2 = self.states[m2].clone();
+                let got = match catch(|| EncryptionGroup::receive(y2, &app)) {
+                    Ok(Ok((_, outputs))) => outputs.iter().find_map(|o| match o {
+                        GroupOutput::Application { plaintext } => Some(plaintext.clone()),
+                        _ => None,
+                    }),
+                    Ok(Err(_)) => None,
+                    Err(p) => return Some(("receive-panics".into(), format!("member {m2}: {p}"))),
+                };
+                out.count("round-trips");
+                if let Some(p) = &got {
+                    if *p != plaintext {
+                        return Some(("wrong-plaintext".into(), format!("member {m2} decrypted data of {m1} to different bytes")));
+                    }
+                }
+                if current.contains(&m2) {
+                    if got.is_none() {
+                        // narrow class: the secret was minted concurrently with the add of m2 and
+                        // was never addressed to m2
+                        let concurrent_add = used != 0
+                            && (1..=self.info.len()).any(|a| {
+                                let i = &self.info[a - 1];
+                                i.op == "Add" && i.arg == m2 as i64 && !self.before(a, used) && !self.before(used, a)
+                            })
+                            && !self.info[used - 1].rcp.contains(&m2);
+                        let sig = if concurrent_add { "added-member-misses-concurrent-secret" } else { "current-member-cannot-decrypt" };
+                        return Some((
+                            sig.into(),
+                            format!(
+                                "all messages delivered; current member {m2} (welcomed={}) cannot decrypt data that current member {m1} encrypted with its latest secret #{used}",
+                                self.states[m2].is_welcomed
+                            ),
+                        ));
+                    }
+                    out.count("round-trips-current-ok");
+                } else {
+                    // removed (or never a member): cut off from secrets minted by / after its removal
+                    let cut_off = used != 0
+                        && (1..=self.info.len()).any(|r| {
+                            let i = &self.info[r - 1];
+                            i.op == "Remove" && i.arg == m2 as i64 && (r == used || self.before(r, used))
+                        });
+                    if cut_off {
+                        out.count("round-trips-removed-probed");
+                        if got.is_some() {
+                            return Some((
+                                "removed-member-decrypts".into(),
+                                format!("member {m2} was removed before secret #{used} was minted but decrypts data encrypted with it"),
+                            ));
+                        }
+                    }
+                }
+            }
+        }
+        None
+    }
+}
+
+fn replay_one(b: &Value, seed: [u8; 32], out: &mut Outcome) -> Option<(String, String)> {
+    let mut net = Net::new(3, seed);
+    let mut state_diff: Option<(String, String)> = None;
+    for (k, step) in b["steps"].as_array().expect("steps").iter().enumerate() {
+        let m = step["m"].as_u64().unwrap() as usize;
+        let msg = &step["msg"];
+        let id = msg["id"].as_u64().unwrap() as usize;
+        let action = step["a"].as_str().unwrap();
+        match action {
+            "Op" => {
+                let op = msg["op"].as_str().unwrap();
+                let arg = msg["arg"].as_i64().unwrap();
+                match net.op(m, op, arg, &set_of(&msg["mem"])) {
+                    Ok(got_id) => {
+                        out.count(&format!("op-{}", op.to_lowercase()));
+                        if got_id != id {
+                            eprintln!("malformed behaviour (message ids): {b}");
+                            std::process::exit(2);
+                        }
+                        let info = &net.info[id - 1];
+                        if state_diff.is_none() && info.rcp != (if op == "Add" { [arg as usize].into() } else { set_of(&msg["rcp"]) }) {
+                            state_diff = Some((
+                                "recipients-differ-from-spec".into(),
+                                format!("step {k}: {op} of {m} carries direct messages for {:?}, the specification says {}", info.rcp, msg["rcp"]),
+                            ));
+                        }
+                        if state_diff.is_none() && info.anc != set_of(&msg["anc"]) {
+                            state_diff = Some((
+                                "ancestors-differ-from-spec".into(),
+                                format!("step {k}: {op} of {m} depends on {:?}, the specification says {}", info.anc, msg["anc"]),
+                            ));
+                        }
+                        if state_diff.is_none() && info.mints != (msg["sec"].as_u64().unwrap() != 0) {
+                            state_diff = Some(("minting-differs-from-spec".into(), format!("step {k}: {op} of {m} minted={} ", info.mints)));
+                        }
+                    }
+                    Err(e) => {
+                        return Some(("operation-failed".into(), format!("step {k}: {op}({arg}) of member {m} failed with `{e}`")));
+                    }
+                }
+            }
+            "Deliver" => {
+                if let Err(e) = net.deliver(m, id) {
+                    return Some((
+                        "receive-failed".into(),
+                        format!("step {k}: member {m} failed to process control message #{id} ({}) delivered in causal order: `{e}`", net.info[id - 1].op),
+                    ));
+                }
+                out.count("deliver");
+            }
+            _ => {
+                eprintln!("unknown action {action}");
+                std::process::exit(2);
+            }
+        }
+        // abstract state of the acting member
+        if state_diff.is_none() {
+            let got = net.abs(m);
+            let want = Abs { w: step["st"]["w"].as_bool().unwrap(), v: set_of(&step["st"]["v"]), k: set_of(&step["st"]["k"]) };
+            if got != want {
+                state_diff = Some((
+                    "state-differs-from-spec".into(),
+                    format!("after step {k} ({action} #{id} at member {m}): {} but the specification says {}", got.to_json(), want.to_json()),
+                ));
+            } else if let Some(l) = net.latest(m) {
+                if !set_of(&step["st"]["max"]).contains(&l) {
+                    state_diff = Some((
+                        "latest-not-causally-maximal".into(),
+                        format!("after step {k}: latest() of member {m} is secret #{l}, causally maximal are {}", step["st"]["max"]),
+                    ));
+                }
+            }
+        }
+        // quiescent: real encrypt / decrypt round trips
+        if step["qs"]["q"].as_bool() == Some(true) {
+            let current = net.current();
+            if state_diff.is_none() && current != set_of(&step["qs"]["cur"]) {
+                state_diff = Some(("current-members-differ-from-spec".into(), format!("after step {k}: {current:?} vs {}", step["qs"]["cur"])));
+            }
+            out.count("quiescent-points");
+            if let Some(v) = net.round_trips(&set_of(&step["qs"]["cur"]), out) {
+                return Some(v);
+            }
+        }
+    }
+    state_diff
+}
+
+fn replay(args: &Args) {
+    let behaviours = read_ndjson(args.input.as_ref().expect("--in"));
+    let mut out = Outcome::new(
+        args,
+        "every TLC-exported history (create/add/remove/update by any of 3 members, every causal delivery order it was exported with) \
+         executed on real EncryptionGroup states; non-trivial = at least one add or remove and at least 3 operations; \
+         distinct by (operation sequence with authors and dependencies, per-member delivery order)",
+    );
+    let mut seen: BTreeSet<String> = BTreeSet::new();
+    for (n, b) in behaviours.iter().enumerate() {
+        out.eval();
+        let res = replay_one(b, seed_bytes(args.seed, n as u64), &mut out);
+        let steps = b["steps"].as_array().unwrap();
+        let ops: Vec<&Value> = steps.iter().filter(|s| s["a"] == "Op").collect();
+        if ops.len() >= 3 && ops.iter().any(|s| s["msg"]["op"] == "Add" || s["msg"]["op"] == "Remove") {
+            // per-member processing order is what matters, not the global interleaving
+            let mut key = String::new();
+            for s in &ops {
+                key.push_str(&format!("{}{}{}{};", s["m"], s["msg"]["op"].as_str().unwrap(), s["msg"]["arg"], s["msg"]["anc"]));
+            }
+            for m in 0..3 {
+                key.push('|');
+                for s in steps.iter().filter(|s| s["a"] == "Deliver" && s["m"] == m) {
+                    key.push_str(&format!("{},", s["msg"]["id"]));
+                }
+            }
+            out.mark_distinct(key);
+        }
+        match res {
+            // one replayable case per failure class; the others are counted
+            Some((sig, detail)) => {
+                out.count(&format!("behaviours-with-{sig}"));
+                if seen.insert(sig.clone()) {
+                    out.violation("C35", &sig, detail, b.clone());
+                }
+            }
+            None => out.sample(b.clone()),
+        }
+    }
+    out.write(args);
+}
+
+/// Seeded random histories on the real code; one trace event per spec action. The driver only
+/// issues operations the specification's guards allow (members act when welcomed and in their own
+/// view; no add concurrent with a remove or a key rotation), mirroring `ConcOk`.
+fn record(args: &Args) {
+    let mut rng = Rng::new(args.seed);
+    let n = if args.n > 0 { args.n } else { 30 };
+    let mut trace = TraceWriter::create(args.out.as_ref().expect("--out"));
+    let mut out = Outcome::new(
+        args,
+        "seeded random histories (4 members, up to 8 operations, up to 3 concurrent pairs, random causal delivery orders) on real \
+         EncryptionGroup states; one trace event per call with the abstract state; round trips at every quiescent point",
+    );
+    for run in 0..n {
+        record_one(run, seed_bytes(args.seed, 2_000_000 + run as u64), &mut rng, &mut trace, &mut out);
+    }
+    let (events, runs) = trace.finish();
+    out.set_trace(events, runs);
+    out.write(args);
+}
+
+const REC_MAX_CONC: usize = 3;
+
+fn record_one(run: usize, seed: [u8; 32], rng: &mut Rng, trace: &mut TraceWriter, out: &mut Outcome) {
+    let members = 4usize;
+    let mut net = Net::new(members, seed);
+    let max_ops = rng.range(3, 8) as usize;
+    trace.event(json!({"ev": "Reset", "run": run}));
+    let mut key = String::new();
+    let mut stuck = 0;
+    while stuck < 50 {
+        stuck += 1;
+        let quiescent = !net.msgs.is_empty() && (0..members).all(|m| (1..=net.msgs.len()).all(|k| net.info[k - 1].by == m || net.dlv[m].contains(&k)));
+        if quiescent && net.msgs.len() >= max_ops {
+            break;
+        }
+        let m = rng.below(members as u64) as usize;
+        let do_op = net.msgs.is_empty() || (net.msgs.len() < max_ops && rng.chance(2, 5));
+        if do_op {
+            let abs = net.abs(m);
+            // candidate operation
+            let (op, arg, mem): (&str, i64, BTreeSet<usize>) = if net.msgs.is_empty() {
+                let mut mem: BTreeSet<usize> = (0..members).filter(|_| rng.chance(1, 2)).collect();
+                mem.insert(m);
+                ("Create", -1, mem)
+            } else {
+                if !abs.w || !abs.v.contains(&m) {
+                    continue;
+                }
+                match rng.below(4) {
+                    0 | 1 => ("Update", -1, BTreeSet::new()),
+                    2 => {
+                        let cands: Vec<usize> = abs.v.iter().copied().filter(|x| *x != m).collect();
+                        if cands.is_empty() {
+                            continue;
+                        }
+                        ("Remove", *rng.pick(&cands) as i64, BTreeSet::new())
+                    }
+                    _ => {
+                        let cands: Vec<usize> = (0..members).filter(|x| !abs.v.contains(x)).collect();
+                        if cands.is_empty() {
+                            continue;
+                        }
+                        ("Add", *rng.pick(&cands) as i64, BTreeSet::new())
+                    }
+                }
+            };
+            // mirror of the specification's ConcOk (with what the member has processed so far)
+            if !net.msgs.is_empty() {
+                let anc: BTreeSet<usize> = processed(&net, m);
+                let others: Vec<usize> = (1..=net.msgs.len()).filter(|k| !anc.contains(k)).collect();
+                let pairs = (1..=net.msgs.len())
+                    .flat_map(|i| (i + 1..=net.msgs.len()).map(move |j| (i, j)))
+                    .filter(|(i, j)| !net.before(*i, *j) && !net.before(*j, *i))
+                    .count();
+                if pairs + others.len() > REC_MAX_CONC {
+                    continue;
+                }
+                let bad = others.iter().any(|k| {
+                    let o = net.info[k - 1].op.as_str();
+                    (o == "Add" && (op == "Remove" || op == "Update")) || (op == "Add" && (o == "Remove" || net.info[k - 1].mints))
+                        || (o == "Remove" && op == "Add")
+                });
+                if bad {
+                    continue;
+                }
+            }
+            out.eval();
+            match net.op(m, op, arg, &mem) {
+                Ok(id) => {
+                    stuck = 0;
+                    key.push_str(&format!("{m}{}{arg};", &op[..1]));
+                    let info = net.info[id - 1].clone();
+                    trace.event(json!({"ev": "Op", "m": m, "op": op, "arg": arg, "mem": mem.iter().collect::<Vec<_>>(), "id": id,
+                        "mints": info.mints, "rcp": info.rcp.iter().collect::<Vec<_>>(), "anc": info.anc.iter().collect::<Vec<_>>(),
+                        "st": net.abs(m).to_json()}));
+                }
+                Err(e) => {
+                    out.violation("C35", "operation-failed", format!("run {run}: {op}({arg}) of member {m} failed with `{e}`"), json!({"run": run, "schedule": key}));
+                    return;
+                }
+            }
+        } else {
+            // a causal delivery: some message whose ancestors (other than m's own) m already received
+            let cands: Vec<usize> = (1..=net.msgs.len())
+                .filter(|k| net.info[k - 1].by != m && !net.dlv[m].contains(k))
+                .filter(|k| net.info[k - 1].anc.iter().all(|a| net.info[a - 1].by == m || net.dlv[m].contains(a)))
+                .collect();
+            if cands.is_empty() {
+                continue;
+            }
+            let id = *rng.pick(&cands);
+            out.eval();
+            match net.deliver(m, id) {
+                Ok(()) => {
+                    stuck = 0;
+                    key.push_str(&format!("d{m}.{id};"));
+                    trace.event(json!({"ev": "Deliver", "m": m, "id": id, "st": net.abs(m).to_json()}));
+                }
+                Err(e) => {
+                    out.violation("C35", "receive-failed", format!("run {run}: member {m} failed to process control message #{id}: `{e}`"), json!({"run": run, "schedule": key}));
+                    return;
+                }
+            }
+        }
+        let quiescent = (0..members).all(|m| (1..=net.msgs.len()).all(|k| net.info[k - 1].by == m || net.dlv[m].contains(&k)));
+        if quiescent {
+            let current = net.current();
+            if let Some((sig, detail)) = net.round_trips(&current, out) {
+                out.violation("C35", &sig, format!("run {run}: {detail}"), json!({"run": run, "schedule": key}));
+                return;
+            }
+        }
+    }
+    if net.msgs.len() >= 3 {
+        out.mark_distinct(key.clone());
+    }
+    if run < 2 {
+        out.sample(json!({"run": run, "schedule": key}));
+    }
+}
+
+/// What the next message of m causally depends on, read from the implementation: the closure of
+/// the `previous` the orderer of m would put into its next message is not observable without
+/// publishing, so the recorder mirrors it: everything m processed plus its own messages. A message
+/// delivered while m is not welcomed is only processed at the welcome; `held` messages are those
+/// delivered but not yet reflected in any message m published since... the mirror is validated by
+/// the trace specification, which recomputes the ancestors and compares them with the real
+/// message's (`anc` of the Op event).
+fn processed(net: &Net, m: usize) -> BTreeSet<usize> {
+    let y = &net.states[m];
+    let mut s: BTreeSet<usize> = (1..=net.msgs.len()).filter(|k| net.info[k - 1].by == m).collect();
+    // the orderer's heads (serde form, CBOR value because some maps have struct keys):
+    // previous: {member: {sender, seq}}
+    if let Ok(v) = ciborium::Value::serialized(&y.orderer) {
+        let field = |v: &ciborium::Value, name: &str| -> Option<ciborium::Value> {
+            v.as_map()?.iter().find(|(k, _)| k.as_text() == Some(name)).map(|(_, x)| x.clone())
+        };
+        let int = |v: &ciborium::Value| -> Option<usize> { v.as_integer().and_then(|i| usize::try_from(i).ok()) };
+        if let Some(prev) = field(&v, "previous") {
+            if let Some(entries) = prev.as_map() {
+                for (_, p) in entries {
+                    let key = (field(p, "sender").as_ref().and_then(int).unwrap_or(99), field(p, "seq").as_ref().and_then(int).unwrap_or(0));
+                    if let Some(id) = net.ids.get(&key) {
+                        s.insert(*id);
+                        s.extend(net.info[*id - 1].anc.iter().copied());
+                    }
+                }
+                return s;
+            }
+        }
+    }
+    // fallback: everything delivered
+    s.extend(net.dlv[m].iter().copied());
+    s
 }
